@@ -116,29 +116,29 @@ def r1(ctx) -> None:
                    fi, lib.stmt_of(c), "set_value_from_optimization is only called from set_from_label_and_value_arrays")
 
 
-def r2(ctx) -> None:
+def r2(ctx, rule: str = "C12-R2") -> None:
     repo = ctx.repo
     up = ctx.fn(PS, "Parameters.update_parameter_expression")
     fl = lib.flow(up, repo)
     cfg = fl.cfg
     evals = [c for c in lib.calls(up) if lib.chain_text(c.func) == "self._evaluator"]
-    ctx.sites("C12-R2", "evaluator calls", len(evals), 1)
+    ctx.sites(rule, "evaluator calls", len(evals), 1)
     for ev in evals:
         inner = None
         loops = [a for a in lib.ancestors(ev, up.node) if isinstance(a, (ast.For, ast.While))]
-        if not ctx.ob("C12-R2", "update_parameter_expression/in-loop", bool(loops), up, lib.stmt_of(ev),
+        if not ctx.ob(rule, "update_parameter_expression/in-loop", bool(loops), up, lib.stmt_of(ev),
                       "expressions are evaluated in a loop over the parameters"):
             continue
         inner = loops[0]
         outer = loops[1] if len(loops) > 1 else None
-        if not ctx.ob("C12-R2", "update_parameter_expression/fixed-point-loop", outer is not None, up, inner,
+        if not ctx.ob(rule, "update_parameter_expression/fixed-point-loop", outer is not None, up, inner,
                       "a single pass in declaration order leaves parameters that depend on later expression parameters "
                       "stale; the pass must be repeated (fixed point) or run in dependency order",
                       construct="for " + norm(inner.target) + " in " + norm(inner.iter) if isinstance(inner, ast.For) else "while"):
             continue
         # store of the evaluated value
         vstores = [(t, s) for t, s in lib.stores(inner) if isinstance(t, ast.Attribute) and t.attr == "value"]
-        ctx.ob("C12-R2", "update_parameter_expression/stores-value", len(vstores) >= 1, up, vstores[0][1] if vstores else inner,
+        ctx.ob(rule, "update_parameter_expression/stores-value", len(vstores) >= 1, up, vstores[0][1] if vstores else inner,
                "the evaluated expression is stored as the parameter's value")
         # bound of the outer loop
         bound_ok = False
@@ -163,7 +163,7 @@ def r2(ctx) -> None:
                 trace.append("bound is not len(X) / max(len(X), c)")
         elif isinstance(outer, ast.While):
             bound_ok = True  # flag controlled; checked below
-        ctx.ob("C12-R2", "update_parameter_expression/pass-bound", bound_ok, up, outer,
+        ctx.ob(rule, "update_parameter_expression/pass-bound", bound_ok, up, outer,
                "the number of passes is at least the number of expression parameters (longest dependency chain)", trace,
                construct=("for _ in " + norm(outer.iter)) if isinstance(outer, ast.For) else "while " + norm(outer.test))
         # early exits of the outer loop
@@ -176,11 +176,11 @@ def r2(ctx) -> None:
                     g = a
                     break
             fname = g.test.id if g is not None and isinstance(g.test, ast.Name) else None
-            if not ctx.ob("C12-R2", "update_parameter_expression/break-guarded", fname is not None, up, b,
+            if not ctx.ob(rule, "update_parameter_expression/break-guarded", fname is not None, up, b,
                           "an early exit of the fixed-point loop must be guarded by the 'nothing changed' flag"):
                 continue
             flag_names.add(fname)
-            ctx.ob("C12-R2", "update_parameter_expression/break-after-pass", not lib.is_inside(b, inner) and g.lineno > inner.lineno, up, g,
+            ctx.ob(rule, "update_parameter_expression/break-after-pass", not lib.is_inside(b, inner) and g.lineno > inner.lineno, up, g,
                    "the early exit is tested after the pass")
         if isinstance(outer, ast.While) and isinstance(outer.test, ast.Name):
             flag_names.add(outer.test.id)
@@ -190,7 +190,7 @@ def r2(ctx) -> None:
             resets = [d for d in in_outer if not lib.is_inside(d.stmt, inner)]
             changes = [d for d in in_outer if lib.is_inside(d.stmt, inner)]
             ok_reset = bool(resets) and all(r.stmt.lineno < inner.lineno for r in resets)
-            ctx.ob("C12-R2", f"update_parameter_expression/flag-reset:{fname}", ok_reset, up, resets[0].stmt if resets else outer,
+            ctx.ob(rule, f"update_parameter_expression/flag-reset:{fname}", ok_reset, up, resets[0].stmt if resets else outer,
                    "the flag is re-initialised at the start of every pass")
             ok_change = False
             trace = []
@@ -229,13 +229,13 @@ def r2(ctx) -> None:
                 trace.append(f"test `{t}` compares old/new: {compares_value}; precedes the store: {before_store}")
                 if compares_value and before_store:
                     ok_change = True
-            ctx.ob("C12-R2", f"update_parameter_expression/flag-set-on-change:{fname}", ok_change, up,
+            ctx.ob(rule, f"update_parameter_expression/flag-set-on-change:{fname}", ok_change, up,
                    changes[0].stmt if changes else inner,
                    "within a pass the flag records a change by comparing the previous value with the new one before the "
                    "new value is stored", trace)
     # non numeric results are rejected
     rs = lib.raises(up)
-    ctx.ob("C12-R2", "update_parameter_expression/non-numeric-rejected", any(lib.raised_name(repo, up, r) == "ValueError" for r in rs),
+    ctx.ob(rule, "update_parameter_expression/non-numeric-rejected", any(lib.raised_name(repo, up, r) == "ValueError" for r in rs),
            up, rs[0] if rs else up.node, "a non numeric expression result raises ValueError", construct=lib.short(rs[0], 60) if rs else "def")
 
 
